@@ -372,7 +372,7 @@ func (tw *tworld) sendOutbound(o outbound, sport uint16) (emitted int, panicked 
 func TestC06(t *testing.T) {
 	env := kit.GetEnv()
 	rep := kit.NewReport("C06", env)
-	rep.Rule = "configurations: {tcp,udp,http,https,icmp6,ping6} x {explicit port 8080, default port} x {public, friends, for=[IP], for=[friend name], friends+for} x friends in {none,{F1},{F1,F2}} x isolate {off,on} (thorough: all ordered pairs of services over {public, friends, for=[IP], friends+for} incl. colliding keys), each through the real Store parser; per accepted configuration on one real router with four real keyed neighbours: inbound packets = sender {friend, friend2, listed, stranger} x protocol {0,1,6,17,58,255} x dst port {0,80,443,8080,81} x inner src {sender, other} x inner dst {self, other, API address} x frame {sealed by sender, sealed by another router, garbage}; outbound = src {own, foreign} x dst {friend, stranger, listed, multicast, non-Mycoria, unrouted Mycoria} x protocol {6,17,58} ; plus multi-step sequences over mirrored 5-tuples (verdict cache), including expiry of the cached verdict through the real cleaner after 11 minutes of virtual time; each packet uses a fresh source port so verdicts are independent unless a sequence says otherwise; non-trivial = packets whose reference verdict is 'deliver' or that deviate in exactly one condition from a deliverable packet; distinct = distinct (configuration, packet)"
+	rep.Rule = "configurations: {tcp,udp,http,https,icmp6,ping6} x {explicit port 8080, default port} x {public, friends, for=[IP], for=[friend name], friends+for} x friends in {none,{F1},{F1,F2}} x isolate {off,on} (thorough: all ordered pairs of services over {public, friends, for=[IP], friends+for} incl. colliding keys), each through the real Store parser; per accepted configuration on one real router with four real keyed neighbours: inbound packets = sender {friend, friend2, listed, stranger} x protocol {0,1,6,17,58,255} x dst port {0,80,443,8080,81} x inner src {sender, other} x inner dst {self, other, API address} x frame {sealed by sender, sealed by another router, garbage}; outbound = src {own, foreign} x dst {friend, stranger, listed, multicast, non-Mycoria, unrouted Mycoria} x protocol {6,17,58} ; plus multi-step sequences over mirrored 5-tuples (verdict cache), including expiry of the cached verdict through the real cleaner after 11 minutes of virtual time, and refused flows (inbound without service, outbound against isolation) after an authentic unreachable notice naming the peer + pauses + cleaner runs; each packet uses a fresh source port so verdicts are independent unless a sequence says otherwise; non-trivial = packets whose reference verdict is 'deliver' or that deviate in exactly one condition from a deliverable packet; distinct = distinct (configuration, packet)"
 	rep.Assumptions = []string{
 		"the verdict cache is by design: a packet mirroring the 5-tuple of a previously allowed flow in the other direction shares that flow's verdict; single-packet cases use fresh tuples, the cache is exercised in dedicated two-step sequences and judged with the same memo in the reference",
 		"'enters the mesh' = a frame emitted by R on any virtual link while the local packet is handled (traffic frame or hello ping)",
@@ -554,6 +554,44 @@ func TestC06(t *testing.T) {
 						nontrivial++
 						if g6 != w6 || g6b != w6 || g6c != w6 {
 							rep.Violate("sequence/verdict-changed-after-pause", fmt.Sprintf("flow judged %v, then %v and %v after a pause of %v (reference %v throughout): peer=%s proto=%d; %s", g6, g6b, g6c, pause, w6, who(peer), proto, c), c.String())
+						}
+					}
+					// (g) a refused flow stays refused after an authentic "unreachable" error
+					// notice that names the peer (such notices rewrite the status of every
+					// flow with that peer) followed by pauses and runs of the cleaner.
+					{
+						sport += 2
+						in7 := inbound{peer, proto, 81, peer, iR, 0}
+						w7 := tw.refInbound(in7, sport)
+						g7, _, _ := tw.sendInbound(in7, sport)
+						o7 := outbound{iR, peer, proto, 9100}
+						may7 := tw.refOutboundMay(o7, sport+1)
+						n7, _ := tw.sendOutbound(o7, sport+1)
+						reporter := tw.nb[iL]
+						if peer == iL {
+							reporter = tw.nb[iF2]
+						}
+						ep, err := kit.BuildPing(reporter, kit.PingSpec{Dst: tw.r.Identity().IP, MsgType: frame.RouterPing, PingType: "error", Code: 1, Body: kit.MustCBOR(map[string]any{"u": pool[peer].IP})})
+						if err != nil {
+							panic(err)
+						}
+						tw.w.Inject(reporter, tw.r, ep)
+						tw.w.InFlight = nil
+						time.Sleep(11 * time.Second)
+						_ = tw.r.Router().VerifClean()
+						g7b, _, _ := tw.sendInbound(in7, sport)
+						n7b, _ := tw.sendOutbound(o7, sport+1)
+						time.Sleep(31 * time.Second)
+						_ = tw.r.Router().VerifClean()
+						g7c, _, _ := tw.sendInbound(in7, sport)
+						n7c, _ := tw.sendOutbound(o7, sport+1)
+						evals++
+						nontrivial++
+						if !w7 && (g7 || g7b || g7c) {
+							rep.Violate("sequence/refused-inbound-admitted-after-error-notice", fmt.Sprintf("inbound flow without admitting service: delivered=%v, then %v and %v after an unreachable notice naming the peer, pauses and the cleaner: peer=%s proto=%d; %s", g7, g7b, g7c, who(peer), proto, c), c.String())
+						}
+						if !may7 && (n7 > 0 || n7b > 0 || n7c > 0) {
+							rep.Violate("sequence/prohibited-outbound-emitted-after-error-notice", fmt.Sprintf("outbound flow the policy prohibits: emitted=%d, then %d and %d after an unreachable notice naming the peer, pauses and the cleaner: peer=%s proto=%d; %s", n7, n7b, n7c, who(peer), proto, c), c.String())
 						}
 					}
 					// (e) verdict expiry: after the connection-state cleaner dropped an old flow
